@@ -58,7 +58,7 @@ def run(ctx):
     cases += codec.empty_member_grid_cases(ctx, every=3 if ctx.tier == 'quick' else 1)   # empty / non-empty constructed members around OPTIONAL ones
     cases += codec.tag_grid_cases(ctx, every=2 if ctx.tier == 'quick' else 1)            # every kind under every tagging shape of depth 0..2
     cases += codec.set_order_grid_cases(ctx, every=12 if ctx.tier == 'quick' else 1)     # every ordered pair of differently tagged SET members
-    cases += codec.long_tag_set_order_cases(ctx) + codec.mixed_form_sibling_cases(ctx) + codec.default_constructed_cases(ctx)   # round 7: long-form tag numbers of differing octet counts; long and short strings under the same tags; constructed DEFAULTs holding constructed members
+    cases += codec.long_tag_set_order_cases(ctx) + codec.mixed_form_sibling_cases(ctx) + codec.default_constructed_cases(ctx) + codec.tagged_choice_in_choice_cases(ctx)   # round 7: long-form tag numbers of differing octet counts; long and short strings under the same tags; constructed DEFAULTs holding constructed members
     # SETs whose members are nested CHOICEs (untagged, or under an EXPLICIT tag of their own) with sibling tags in between
     from harness.props import c17 as _c17
     for T_, v_, _how in _c17.set_choice_cases(ctx, gen.Gen(ctx.rng), ctx.n(8, 150)):
